@@ -70,6 +70,14 @@ func genC14(r *Rng, tier string) *Scenario {
 		nrep = 8
 	}
 	switch c := r.Intn(100); {
+	case c < 4 && c >= 2:
+		// renders WITHOUT data that read and assign top-level variables: whatever an earlier data-less
+		// render of the process assigned must not be visible
+		sc.Family = "nodata"
+		sc.Parts = []string{"<p>{{ shared }}</p>"}
+		sc.Ops = []Op{{Kind: "evalstr", Src: "<p>{{ shared }}</p>", Data: nil},
+			{Kind: "evalstr", Src: `{{ title = "t" }}{{ status = "s" }}<i>{{ title }}{{ status }}</i>`, Data: nil},
+			{Kind: "evalstr", Src: "{{ counter = 1 }}{{ counter++ }}{{ counter }}", Data: &Val{T: "map"}}}
 	case c < 2:
 		// the whole built-in function table; the history replica has called every function before
 		sc.Family = "builtins"
@@ -147,6 +155,22 @@ func genC14(r *Rng, tier string) *Scenario {
 			if !dup {
 				data.K = append(data.K, b.k)
 				data.V = append(data.V, b.v)
+			}
+		}
+		if r.Chance(50) {
+			// ... and a NESTED map that holds several values of different unsupported types
+			data.K = append(data.K, "nestedbad")
+			data.V = append(data.V, VMap([]string{"a", "b", "c", "d", "ok"}, []Val{{T: "chan"}, {T: "func"}, {T: "complex", F: 2}, {T: "chan"}, VInt(1)}))
+			if r.Chance(50) {
+				// only nested ones: the top level is fine
+				nd := &Val{T: "map"}
+				for i, k := range data.K {
+					if t := data.V[i].T; (t != "chan" && t != "func" && t != "complex" && k != "loop") || k == "nestedbad" {
+						nd.K = append(nd.K, k)
+						nd.V = append(nd.V, data.V[i])
+					}
+				}
+				data = nd
 			}
 		}
 		sc.Parts = []string{"<p>x</p>", "{{ n1 }}"}
@@ -347,6 +371,8 @@ func c14Prelude(w *World, sc *Scenario, soak int) {
 	}
 	pw.RunOp(Op{Kind: "evalstr", Src: "<p>before</p>@each(x in [2, 1, 0])<li>{{ 10 / x }}</li>@end", Data: nil}, Budget)
 	pw.RunOp(Op{Kind: "evalstr", Src: "<h1>partial output</h1>{{ undefinedInPrelude }}", Data: nil}, Budget)
+	pw.RunOp(Op{Kind: "evalstr", Src: "{{ shared = 41 }}{{ title = 7 }}{{ status = 200 }}{{ counter = 5.5 }}{{ shared }}", Data: nil}, Budget)
+	pw.RunOp(Op{Kind: "evalstr", Src: "{{ shared = 42 }}{{ counter = [1] }}", Data: &Val{T: "map"}}, Budget)
 	pw.RunOp(Op{Kind: "evalstr", Src: "@for(i = 0; i < 3; i++)[{{ 6 / (1 - i) }}]@end", Data: nil}, Budget)
 	if soak > 0 {
 		// a long earlier life: hundreds of requests that panicked inside textwire and were recovered by
@@ -600,6 +626,12 @@ func (p c14) signature(sc *Scenario, ri, d int) string {
 				return "earlier-history-long:" + sc.Family
 			}
 			return "earlier-history:" + sc.Family
+		}
+	}
+	if rep := sc.Replicas[ri]; rep.Mode == "canonical" && len(rep.PerSite) == 1 {
+		// a minimised scenario: the replica already differs from the canonical one in one site only
+		for n := range rep.PerSite {
+			return "order@" + n
 		}
 	}
 	site, _, ok := c14SingleSite(sc, sc.Replicas[ri])
